@@ -94,6 +94,10 @@ def run_c_client(v, behs, ev):
             if op == "append":
                 fed[name] = fed.get(name, 0) + (c[2] if len(c) > 2 else 3)   # corrected below if the call failed
         lines.append("dump")
+        snames = sorted(real_name(n).encode() for n in slots if any(c[0] == "file" and c[1] == n for c in b["calls"]))
+        decl = {"first": snames[:1], "second": snames[1:2], "all": snames}.get(b.get("decline", "none"), [])
+        for dn in decl:
+            lines.append(f"decline {dn.hex()}")
         xd = os.path.join(d, "x")
         os.makedirs(xd, exist_ok=True)
         lines.append(f"extract {arch} {xd}")
@@ -198,10 +202,15 @@ def run_c_client(v, behs, ev):
             viol("c-extract-failed", status=xl)
             continue
         bad = []
+        snames = sorted(bytes.fromhex(n) for n in want)
+        decl = {x.hex() for x in {"first": snames[:1], "second": snames[1:2], "all": snames}.get(b.get("decline", "none"), [])}
         for n, data in want.items():
             fp = os.path.join(xd, "f_" + n)
             g = open(fp, "rb").read() if os.path.exists(fp) else None
-            if g != data:
+            if n in decl:
+                if g is not None:
+                    bad.append(n + " (declined, yet delivered)")
+            elif g != data:
                 bad.append(n)
         extra = [f for f in os.listdir(xd) if f[2:] not in want]
         if bad or extra:
